@@ -128,7 +128,7 @@ func plainPath(n *node) bool {
 func runC05(c *Ctx) {
 	n := 40
 	if !c.Quick() {
-		n = 1200
+		n = 5000
 	}
 	runs := 0
 	for i := 0; i < n; i++ {
@@ -218,12 +218,26 @@ func runC05(c *Ctx) {
 				} else if nd.refLen >= 0 && k != nd.refLen {
 					problems = append(problems, fmt.Sprintf("%s was created when %d events had been published but its sequence starts at event %d", what, nd.refLen, k))
 				}
-				for _, e := range seq {
+				for j, e := range seq {
 					if !e.readyThen {
 						problems = append(problems, what+" received an event before Ready")
 					}
 					if e.getVer > 0 && e.getVer < e.maxSeen {
-						problems = append(problems, fmt.Sprintf("%s: after having received %v@%d its cache returned the older version %d", what, e.key, e.maxSeen, e.getVer))
+						// the cache is updated before events are handed over, so it may be
+						// AHEAD of what this consumer has received: if a Delete of the object
+						// is on its way (a server replaying old history deletes and
+						// re-creates it at an older version), the older version is the
+						// re-created object, not a regression
+						deleteFollows := false
+						for _, later := range seq[j+1:] {
+							if later.key == e.key && later.ty == 2 {
+								deleteFollows = true
+								break
+							}
+						}
+						if !deleteFollows {
+							problems = append(problems, fmt.Sprintf("%s: after having received %v@%d its cache returned the older version %d (and no Delete of the object follows)", what, e.key, e.maxSeen, e.getVer))
+						}
 					}
 					if e.getVer == 0 && e.ty != 2 {
 						// absent is allowed only if a later delete is on its way; check at quiescence below
@@ -310,7 +324,7 @@ func runC05(c *Ctx) {
 	// watch events that follow it: nobody sees an object go back to an older version
 	nrace := 12
 	if !c.Quick() {
-		nrace = 200
+		nrace = 600
 	}
 	if v := os.Getenv("KVERIF_NRACE"); v != "" {
 		fmt.Sscan(v, &nrace)
@@ -399,7 +413,7 @@ func runC05(c *Ctx) {
 	// with the same sequence
 	ntail := 10
 	if !c.Quick() {
-		ntail = 150
+		ntail = 600
 	}
 	for i := 0; i < ntail; i++ {
 		var problems []string
@@ -526,7 +540,7 @@ func runC05(c *Ctx) {
 		}
 		c.DistinctCase(fmt.Sprint("tail-src", i))
 	}
-	bufferScenarios(c, 3, 60)
+	bufferScenarios(c, 3, 300)
 	c.Rep.Rule = "trees of Subscribe/Clone to depth 3 built through the public API on a real controller fed by the fake API server's watch (virtual time), subscriptions created at barriers and racing with the stream, <= EventBufsiz/4 events in flight, 4 levels of logger-driven perturbation. Oracles: every subscriber's sequence is a suffix of the reference subscriber's (exact start index when created at a barrier), no event before Ready, Get after an event never returns an older version; sequences of barrier-created subscribers vs the extracted model (skipn). Plus: 130 events with never-reading siblings holding full buffers (the consumers that keep up receive all 130); and periodic relists that find 399 differences while the restarted watch at once delivers newer versions of the last of those objects (no subscriber sees an object go back to an older version); and a burst followed at once by the root's Close() (subscribers at depth 0, 1 and 2 created together end with the same sequence: publishers drain their backlog before shutting down; on a hand-driven source every subscriber receives exactly the 60 events handed over before the stop). Non-trivial = scenario with >= 3 subscribers checked."
 	c.Rep.Stats["runs"] = runs
 }
@@ -678,7 +692,7 @@ func runC10(c *Ctx) {
 			}
 		}
 	}
-	bufferScenarios(c, 6, 150)
+	bufferScenarios(c, 6, 600)
 	for i := 0; i < 4; i++ {
 		stalledRefilter(c, i)
 	}
@@ -692,7 +706,7 @@ func runC10(c *Ctx) {
 func runC16(c *Ctx) {
 	n := 30
 	if !c.Quick() {
-		n = 600
+		n = 3000
 	}
 	delays := []time.Duration{0, time.Millisecond, 50 * time.Millisecond}
 	runs := 0
